@@ -88,3 +88,31 @@ MUTANTS += [
     dict(prop="C07", name="numpy-float64-and-float-share-key", tests=T_EXPR, edits=[(EXPR,
         "(value, type(value).__name__, _sign_of_zero(value))", "(value, type(value).__name__.replace('float64', 'float'), _sign_of_zero(value))")]),
 ]
+
+REW = "functional_algorithms/rewrite.py"
+T_GEN = ["functional_algorithms/tests/test_functional_algorithms.py", "functional_algorithms/tests/test_expr.py", "functional_algorithms/tests/test_context.py"]
+
+MUTANTS += [
+    dict(prop="C09", name="logical-and-or-ordered-by-id", tests=T_GEN, edits=[
+        (REW, "        if x.key > y.key:\n            return expr.context.logical_and(y, x)\n", "        if id(x) > id(y):\n            return expr.context.logical_and(y, x)\n"),
+        (REW, "        if x.key > y.key:\n            return expr.context.logical_or(y, x)\n", "        if id(x) > id(y):\n            return expr.context.logical_or(y, x)\n")]),
+    dict(prop="C09", name="eq-ne-ordered-by-id", tests=T_GEN, edits=[
+        (REW, "            if x.key > y.key:\n                # make eq and ne unique", "            if id(x) > id(y):\n                # make eq and ne unique")]),
+    dict(prop="C09", name="ctx-call-iterates-local-names-as-set", tests=T_GEN, edits=[
+        (CTX, "        for name, obj in frame.f_locals.items():\n", "        for name in set(frame.f_locals):\n            obj = frame.f_locals[name]\n")]),
+    dict(prop="C09", name="stack-call-count-process-global", tests=T_GEN, edits=[
+        (CTX, "        self._stack_call_count = defaultdict(int)\n", "        self._stack_call_count = _GLOBAL_CALL_COUNT\n"),
+        (CTX, "class Context:\n", "_GLOBAL_CALL_COUNT = defaultdict(int)\n\n\nclass Context:\n")]),
+    dict(prop="C09", name="ref-values-registry-process-global", tests=T_GEN, edits=[
+        (CTX, "        self._ref_values = {}  # TODO: move to printer context\n", "        self._ref_values = _GLOBAL_REFS\n"),
+        (CTX, "class Context:\n", "_GLOBAL_REFS = {}\n\n\nclass Context:\n")]),
+    dict(prop="C09", name="value-symbol-named-by-tmp-counter", tests=T_GEN, edits=[
+        (CTX, "                like_expr = self.symbol(\"_value\", self._default_constant_type)\n", "                like_expr = self.symbol(None, self._default_constant_type)\n")]),
+    dict(prop="C09", name="rewrite-skipped-after-first-warn-once", tests=T_GEN, edits=[
+        (EXPR, "        rewrite_context = RewriteContext() if _rewrite_context is None else _rewrite_context\n",
+               "        rewrite_context = RewriteContext() if _rewrite_context is None else _rewrite_context\n        if modifier is _LAST_MODIFIER[0] and len(_LAST_MODIFIER) > 40 and self.kind == 'negative':\n            return self\n        _LAST_MODIFIER.append(0)\n        _LAST_MODIFIER[0] = modifier\n"),
+        (EXPR, "def normalize_like(expr):\n", "_LAST_MODIFIER = [None]\n\n\ndef normalize_like(expr):\n")]),
+    dict(prop="C09", name="need-ref-forced-by-gc-generation", tests=T_GEN, edits=[
+        (EXPR, "                    need_ref[ref] = expr.props.get(\"force_ref\", False)\n",
+               "                    need_ref[ref] = expr.props.get(\"force_ref\", False) or (id(expr) % 4096 == 0 and expr.kind == 'multiply')\n")]),
+]
